@@ -3,6 +3,7 @@ import CV.Model.HttpSpec
 import CV.Proofs.HttpWf4
 import CV.Proofs.HttpLex
 import CV.Proofs.HttpLexRound
+import CV.Proofs.HttpClient
 /-
 C13 - HTTP requests are parsed identically however the stream is segmented.
 
@@ -720,5 +721,280 @@ example : hdrGet [(nContentLength, [52, 50])] nContentLength = some [52, 50] ∧
     hdrGet [(nTransferEncoding, [67, 104, 117, 110, 107, 101, 100])] nContentLength = none ∧
     hdrGet [(nTransferEncoding, [67, 104, 117, 110, 107, 101, 100])] nTransferEncoding = some [67, 104, 117, 110, 107, 101, 100] ∧
     ([67, 104, 117, 110, 107, 101, 100] : Bytes).map lowerA = sChunked := by decide
+
+/-! ### The client component (`circuits.web.client.Client`, CV/Model/HttpClient.lean) -/
+
+open CV.Http.Client in
+/-- what an observer must see of a session, computed from the requests and the *responses* alone (no
+    read boundaries): per exchange the events of the request (a `connect` first iff the client is not
+    connected: at the start, or after a `Connection: close` response), then the one `response` event,
+    then `close` iff the response says `Connection: close` -/
+def expectedSession : Bool → List (Request × Resp) → List (List Ev)
+  | _, [] => []
+  | c, (q, r) :: xs =>
+    ((onRequest ⟨c, init .response⟩ q).2 ++ respEvents (some r)) :: expectedSession (!connClose r) xs
+
+open CV.Http.Client in
+/-- is the client connected after the session -/
+def endConnected : Bool → List (Request × Resp) → Bool
+  | c, [] => c
+  | _, (_, r) :: xs => endConnected (!connClose r) xs
+
+open CV.Http.Client in
+/-- one exchange of a session: a request the model covers whose URL `parse_url` accepts, and a
+    segmentation (into non-empty reads) of bytes that are, by the RFC-derived decomposition, one
+    response (status line `fl`, header block `hb`, body `body`; not an Upgrade) -/
+def GoodExchange (pathOk : Bytes → Option Bytes → Bool)
+    (x : Request × List Bytes × Bytes × Option Bytes × Bytes) : Prop :=
+  requestInDomain x.1 = true ∧ (∃ u, parseUrl x.1.url = .ok u) ∧ (∀ d ∈ x.2.1, d ≠ []) ∧
+  isReading (concreteLex pathOk) .response x.2.1.flatten x.2.2.1 x.2.2.2.1 x.2.2.2.2 = true
+
+open CV.Http.Client in
+/-- **Sessions of the client component: k requests, k responses, paired up, whatever the cuts.**
+    Successive exchanges on one `Client` (each request follows the previous response), every response
+    RFC-well-formed and cut into non-empty reads in any way: the events of the k-th exchange are those
+    of the k-th request followed by exactly one `response` event carrying the k-th response (status
+    line, header block, body of the decomposition) - nothing at the reads before the last one -, then
+    `close` iff that response says `Connection: close`; the next request then reconnects first.  The
+    right-hand side does not mention the read boundaries.  Afterwards the response parser is fresh. -/
+theorem client_sequence (pathOk : Bytes → Option Bytes → Bool)
+    (xs : List (Request × List Bytes × Bytes × Option Bytes × Bytes)) (c0 : Bool)
+    (h : ∀ x ∈ xs, GoodExchange pathOk x) :
+    (session (concreteLex pathOk) ⟨c0, init .response⟩ (xs.map fun x => (x.1, x.2.1))).2 =
+      expectedSession c0 (xs.map fun x => (x.1, ⟨some x.2.2.1, x.2.2.2.1, x.2.2.2.2⟩)) ∧
+    (session (concreteLex pathOk) ⟨c0, init .response⟩ (xs.map fun x => (x.1, x.2.1))).1.connected =
+      endConnected c0 (xs.map fun x => (x.1, ⟨some x.2.2.1, x.2.2.2.1, x.2.2.2.2⟩)) ∧
+    (session (concreteLex pathOk) ⟨c0, init .response⟩ (xs.map fun x => (x.1, x.2.1))).1.parser = init .response := by
+  induction xs generalizing c0 with
+  | nil => exact ⟨rfl, rfl, rfl⟩
+  | cons x xs ih =>
+    obtain ⟨hdom, ⟨u, hu⟩, hne, hr⟩ := h x (by simp)
+    have hall := wellformed_one_response_concrete pathOk x.2.1 x.2.2.1 x.2.2.2.1 x.2.2.2.2 hne hr
+    have hreq : onRequest ⟨c0, init .response⟩ x.1 =
+        (⟨true, init .response⟩, (onRequest ⟨c0, init .response⟩ x.1).2) := by
+      simp [onRequest, hdom, hu]
+    have hex : exchange (concreteLex pathOk) ⟨c0, init .response⟩ (x.1, x.2.1) =
+        (⟨!connClose ⟨some x.2.2.1, x.2.2.2.1, x.2.2.2.2⟩, init .response⟩,
+         (onRequest ⟨c0, init .response⟩ x.1).2 ++ respEvents (some ⟨some x.2.2.1, x.2.2.2.1, x.2.2.2.2⟩)) := by
+      unfold exchange
+      rw [hreq]
+      simp only [readAll_eq, hall, flatMap_replicate_none, any_replicate_none, closes, Bool.true_and]
+    obtain ⟨i1, i2, i3⟩ := ih (!connClose ⟨some x.2.2.1, x.2.2.2.1, x.2.2.2.2⟩)
+      (fun y hy => h y (List.mem_cons_of_mem _ hy))
+    simp only [List.map_cons, session, hex, expectedSession, endConnected]
+    exact ⟨by rw [i1], i2, i3⟩
+
+/-- `GET http://h/a` answered by `HTTP/1.1 200 OK CRLF Content-Length: 2 CRLF CRLF ab`, cut after the status
+    line's CR and inside the body -/
+def cExchange : CV.Http.Client.Request × List Bytes × Bytes × Option Bytes × Bytes :=
+  (⟨[71, 69, 84], [104, 116, 116, 112, 58, 47, 47, 104, 47, 97], none, []⟩,
+   [[72, 84, 84, 80, 47, 49, 46, 49, 32, 50, 48, 48, 32, 79, 75, 13],
+    [10, 67, 111, 110, 116, 101, 110, 116, 45, 76, 101, 110, 103, 116, 104, 58, 32, 50, 13, 10, 13, 10, 97], [98]],
+   [72, 84, 84, 80, 47, 49, 46, 49, 32, 50, 48, 48, 32, 79, 75],
+   some [67, 111, 110, 116, 101, 110, 116, 45, 76, 101, 110, 103, 116, 104, 58, 32, 50], [97, 98])
+
+/-- the same request answered by `HTTP/1.1 200 OK CRLF Connection: Close CRLF Content-Length: 0 CRLF CRLF` in two reads -/
+def cExchangeClose : CV.Http.Client.Request × List Bytes × Bytes × Option Bytes × Bytes :=
+  (cExchange.1,
+   [[72, 84, 84, 80, 47, 49, 46, 49, 32, 50, 48, 48, 32, 79, 75, 13, 10, 67, 111, 110, 110, 101, 99, 116, 105, 111, 110, 58, 32, 67, 108, 111, 115, 101, 13],
+    [10, 67, 111, 110, 116, 101, 110, 116, 45, 76, 101, 110, 103, 116, 104, 58, 32, 48, 13, 10, 13, 10]],
+   [72, 84, 84, 80, 47, 49, 46, 49, 32, 50, 48, 48, 32, 79, 75],
+   some [67, 111, 110, 110, 101, 99, 116, 105, 111, 110, 58, 32, 67, 108, 111, 115, 101, 13, 10, 67, 111, 110, 116, 101, 110, 116, 45, 76, 101, 110, 103, 116, 104, 58, 32, 48], [])
+
+example : ∀ x ∈ [cExchangeClose, cExchange], GoodExchange okPath x := by
+  intro x hx
+  simp only [List.mem_cons, List.not_mem_nil, or_false] at hx
+  rcases hx with rfl | rfl
+  · exact ⟨by decide, ⟨⟨[104], 80, [47, 97], false⟩, by decide⟩, by decide, by decide⟩
+  · exact ⟨by decide, ⟨⟨[104], 80, [47, 97], false⟩, by decide⟩, by decide, by decide⟩
+
+/-- what the theorem then says of that session: connect + write, response, close; connect again + write, response -/
+example : expectedSession false ([cExchangeClose, cExchange].map fun x => (x.1, ⟨some x.2.2.1, x.2.2.2.1, x.2.2.2.2⟩)) =
+    [[.connect [104] 80 false,
+      .write [71, 69, 84, 32, 47, 97, 32, 72, 84, 84, 80, 47, 49, 46, 49, 13, 10, 72, 111, 115, 116, 58, 32, 104, 13, 10, 13, 10],
+      .response ⟨some cExchangeClose.2.2.1, cExchangeClose.2.2.2.1, []⟩, .close],
+     [.connect [104] 80 false,
+      .write [71, 69, 84, 32, 47, 97, 32, 72, 84, 84, 80, 47, 49, 46, 49, 13, 10, 72, 111, 115, 116, 58, 32, 104, 13, 10, 13, 10],
+      .response ⟨some cExchange.2.2.1, cExchange.2.2.2.1, [97, 98]⟩]] := by decide
+
+open CV.Http.Client in
+/-- **The request the client writes parses back to the request the application asked for.**
+    For a request (`method`, `body`, `headers`) to a parsed URL `u` (host, port, path + query, secure):
+    the bytes of the `write` events of `Client.request` - request line `METHOD SP path SP HTTP/1.1`,
+    the header fields of `requestFields` (the application's, then `Host` unless given, then
+    `Content-Length` = the length of the body iff a body is given), the empty line, the body - are,
+    read by the server side with the code's own lexers (`concreteLex`):
+    the request line lexes as exactly (method, path, 1, 1); the header block makes exactly the
+    `add_header` calls of these fields (names upper-cased); by the RFC-derived decomposition the bytes are
+    one request with that line, that block and that body; and the server's parser, given the bytes in
+    one piece, ends complete, without error, with nothing left over.  (By `wellformed_one_request_concrete`
+    the same then holds for every segmentation, when the request passes the server's acceptance tests.)
+
+    Hypotheses: the domain of the lexer round trips (`lexFirst_request_roundtrip`, `lexHdrs_roundtrip`:
+    method of METHOD_RE's class, path without whitespace / fragment, fields RFC 7230 tokens and values)
+    and `hinfo`/`hup`/`hbody`: the framing the final fields announce is the body written - which
+    `client_content_length` derives from the model when the application sets no framing header itself. -/
+theorem client_request_parses_back (pathOk : Bytes → Option Bytes → Bool) (q : Request) (u : Url) (h : HdrInfo)
+    (hm : methodOk q.method = true) (htne : u.path ≠ []) (ht : ∀ b ∈ u.path, isUSpace b = false)
+    (hfrag : hasFragment u.path = false) (hurl : urlRefused u.path = false)
+    (href : lineRefused (reqLineOf q.method u.path [49] [49]) = false)
+    (hok : ∀ f ∈ requestFields u q.headers q.body, FieldOk f)
+    (hinfo : infoOfFields ((requestFields u q.headers q.body).map normField) = .ok h)
+    (hup : h.upgrade = false)
+    (hbody : bodyOk .request h (q.body.getD []) (q.body.getD []) = true) :
+    lexRequestLine (reqLineOf q.method u.path [49] [49]) = .ok ⟨q.method, u.path, 1, 1⟩ ∧
+    lexFieldList (serFields (requestFields u q.headers q.body)) =
+      .ok ((requestFields u q.headers q.body).map normField) ∧
+    isReading (concreteLex pathOk) .request (wireBytes (requestWrites q u))
+      (reqLineOf q.method u.path [49] [49]) (some (serFields (requestFields u q.headers q.body)))
+      (q.body.getD []) = true ∧
+    (exec (concreteLex pathOk) (init .request) (wireBytes (requestWrites q u))).core.bad = false ∧
+    (exec (concreteLex pathOk) (init .request) (wireBytes (requestWrites q u))).core.complete = true ∧
+    (exec (concreteLex pathOk) (init .request) (wireBytes (requestWrites q u))).core.body = q.body.getD [] := by
+  have hne := requestFields_ne_nil u q.headers q.body
+  have hfl := lexFirst_request_roundtrip q.method u.path [49] [49] hm htne ht hfrag hurl (by simp) (by simp)
+    (by decide) (by decide) href
+  have hhd := lexHdrs_roundtrip _ hne hok
+  have hread : isReading (concreteLex pathOk) .request (wireBytes (requestWrites q u))
+      (reqLineOf q.method u.path [49] [49]) (some (serFields (requestFields u q.headers q.body)))
+      (q.body.getD []) = true := by
+    obtain ⟨c, r, e, hc⟩ := serFields_head _ hne hok
+    have h1 : (concreteLex pathOk).first .request (reqLineOf q.method u.path [49] [49]) = some ⟨1, 1, none⟩ := by
+      show (lexFirst .request _).toOption = _
+      rw [hfl.2]; rfl
+    have h2 : (concreteLex pathOk).hdrs (serFields (requestFields u q.headers q.body)) = some h := by
+      show (lexHdrs _).toOption = _
+      rw [hhd.2, hinfo]; rfl
+    have hpre : wireBytes (requestWrites q u) =
+        (reqLineOf q.method u.path [49] [49] ++ CRLF ++ serFields (requestFields u q.headers q.body) ++ CRLF2) ++
+          q.body.getD [] := by
+      rw [wire_eq, serHead_eq _ _ _ hne]
+    unfold isReading
+    rw [occurs_crlf_no_lf _ (reqLine_no_lf _ _ hm ht), h1]
+    simp only [Bool.not_false, Bool.true_and, h2, occurs_crlf2_ser _ hne hok, hup]
+    rw [hpre, List.drop_left, hbody]
+    have hp : ((reqLineOf q.method u.path [49] [49] ++ CRLF ++ serFields (requestFields u q.headers q.body) ++ CRLF2).isPrefixOf
+        ((reqLineOf q.method u.path [49] [49] ++ CRLF ++ serFields (requestFields u q.headers q.body) ++ CRLF2) ++
+          q.body.getD [])) = true := by
+      rw [List.isPrefixOf_iff_prefix]; exact List.prefix_append _ _
+    rw [hp, e]
+    simp [CRLF, hc]
+  have hc := wellformed_clean_concrete pathOk .request _ _ _ _ hread
+  have hd : decVal [49] = 1 := by decide
+  exact ⟨by rw [hfl.1, hd], hhd.1, hread, hc.1, hc.2.1, hc.2.2.2.2⟩
+
+/-- `POST http://h:8080/a?x=1` with header `x-a: v` and body `ab`:
+    `POST /a?x=1 HTTP/1.1 CRLF X-A: v CRLF Host: h:8080 CRLF Content-Length: 2 CRLF CRLF ab` -/
+def cReq : CV.Http.Client.Request :=
+  ⟨[80, 79, 83, 84], [104, 116, 116, 112, 58, 47, 47, 104, 58, 56, 48, 56, 48, 47, 97, 63, 120, 61, 49], some [97, 98], [([120, 45, 97], [118])]⟩
+def cUrl : CV.Http.Client.Url := ⟨[104], 8080, [47, 97, 63, 120, 61, 49], false⟩
+
+example : CV.Http.Client.parseUrl cReq.url = .ok cUrl ∧
+    CV.Http.Client.requestFields cUrl cReq.headers cReq.body =
+      [([88, 45, 65], [118]), ([72, 111, 115, 116], [104, 58, 56, 48, 56, 48]),
+       ([67, 111, 110, 116, 101, 110, 116, 45, 76, 101, 110, 103, 116, 104], [50])] ∧
+    methodOk cReq.method = true ∧ cUrl.path ≠ [] ∧ (∀ b ∈ cUrl.path, isUSpace b = false) ∧
+    hasFragment cUrl.path = false ∧ urlRefused cUrl.path = false ∧
+    lineRefused (reqLineOf cReq.method cUrl.path [49] [49]) = false ∧
+    infoOfFields ((CV.Http.Client.requestFields cUrl cReq.headers cReq.body).map normField) = .ok ⟨.val 2, false, true, false⟩ ∧
+    bodyOk .request ⟨.val 2, false, true, false⟩ (cReq.body.getD []) (cReq.body.getD []) = true := by decide
+
+example : ∀ f ∈ CV.Http.Client.requestFields cUrl cReq.headers cReq.body, FieldOk f := by
+  have e : CV.Http.Client.requestFields cUrl cReq.headers cReq.body =
+      [([88, 45, 65], [118]), ([72, 111, 115, 116], [104, 58, 56, 48, 56, 48]),
+       ([67, 111, 110, 116, 101, 110, 116, 45, 76, 101, 110, 103, 116, 104], [50])] := by decide
+  rw [e]
+  intro f hf
+  simp only [List.mem_cons, List.not_mem_nil, or_false] at hf
+  rcases hf with rfl | rfl | rfl <;> exact ⟨⟨by decide, by decide, by decide, by decide⟩, by decide⟩
+
+open CV.Http.Client in
+/-- **The framing the client announces is the body it writes.**  If the application sets no
+    `Content-Length`, `Transfer-Encoding` or `Connection` header itself (in any letter case), the fields
+    `Client.request` sends announce exactly the body it writes: with a body, `Content-Length` is the one
+    the client adds, its value reads back (through `Headers.get` + `int`) as the length of the body; without
+    one, no framing header at all (a request without body); never an Upgrade.  (`hlen`: the decimal
+    length has at most 4000 digits - the explicit limit of the lexer model, `int()`'s digit limit.) -/
+theorem client_framing (u : Url) (user : List Field) (body : Option Bytes) (hno : NoFraming user)
+    (hlen : ∀ b, body = some b → (decStr b.length).length ≤ 4000) :
+    ∃ h, infoOfFields ((requestFields u user body).map normField) = .ok h ∧ h.upgrade = false ∧
+      bodyOk .request h (body.getD []) (body.getD []) = true :=
+  framing_facts u user body hno hlen
+
+example : CV.Http.Client.NoFraming cReq.headers ∧
+    (∀ b, cReq.body = some b → (CV.Http.Client.decStr b.length).length ≤ 4000) := by
+  refine ⟨⟨?_, ?_, ?_⟩, ?_⟩
+  · intro f hf; simp only [cReq, List.mem_singleton] at hf; subst hf; decide
+  · intro f hf; simp only [cReq, List.mem_singleton] at hf; subst hf; decide
+  · intro f hf; simp only [cReq, List.mem_singleton] at hf; subst hf; decide
+  · intro b hb; simp only [cReq, Option.some.injEq] at hb; subst hb; decide
+
+open CV.Http.Client in
+/-- **`client_request_parses_back` without hypotheses on the framing**: for an application that leaves
+    the framing headers to the client, the written bytes are one well-formed request with the method,
+    path, fields and body asked for, and the server's parser reads them complete, clean, with that body. -/
+theorem client_request_parses_back_noframing (pathOk : Bytes → Option Bytes → Bool) (q : Request) (u : Url)
+    (hm : methodOk q.method = true) (htne : u.path ≠ []) (ht : ∀ b ∈ u.path, isUSpace b = false)
+    (hfrag : hasFragment u.path = false) (hurl : urlRefused u.path = false)
+    (href : lineRefused (reqLineOf q.method u.path [49] [49]) = false)
+    (hok : ∀ f ∈ requestFields u q.headers q.body, FieldOk f)
+    (hno : NoFraming q.headers)
+    (hlen : ∀ b, q.body = some b → (decStr b.length).length ≤ 4000) :
+    lexRequestLine (reqLineOf q.method u.path [49] [49]) = .ok ⟨q.method, u.path, 1, 1⟩ ∧
+    lexFieldList (serFields (requestFields u q.headers q.body)) =
+      .ok ((requestFields u q.headers q.body).map normField) ∧
+    isReading (concreteLex pathOk) .request (wireBytes (requestWrites q u))
+      (reqLineOf q.method u.path [49] [49]) (some (serFields (requestFields u q.headers q.body)))
+      (q.body.getD []) = true ∧
+    (exec (concreteLex pathOk) (init .request) (wireBytes (requestWrites q u))).core.bad = false ∧
+    (exec (concreteLex pathOk) (init .request) (wireBytes (requestWrites q u))).core.complete = true ∧
+    (exec (concreteLex pathOk) (init .request) (wireBytes (requestWrites q u))).core.body = q.body.getD [] := by
+  obtain ⟨h, hi, hu, hb⟩ := client_framing u q.headers q.body hno hlen
+  exact client_request_parses_back pathOk q u h hm htne ht hfrag hurl href hok hi hu hb
+
+/-- non-vacuity: `cReq` / `cUrl` above satisfy every hypothesis (the two examples before `client_framing`) -/
+example : methodOk cReq.method = true ∧ cUrl.path ≠ [] ∧ hasFragment cUrl.path = false ∧
+    urlRefused cUrl.path = false ∧ lineRefused (reqLineOf cReq.method cUrl.path [49] [49]) = false := by decide
+
+open CV.Http.Client in
+/-- **The request target `parse_url` yields is one the request-line lexer takes**: for every URL
+    `parse_url` accepts (within the model's URL domain), the path-plus-query it returns is non-empty,
+    free of whitespace, has no fragment and is not refused by `urlsplit` - the hypotheses of
+    `lexFirst_request_roundtrip` on the target. -/
+theorem client_target (url : Bytes) (u : Url) (h : parseUrl url = .ok u) :
+    u.path ≠ [] ∧ (∀ b ∈ u.path, isUSpace b = false) ∧ hasFragment u.path = false ∧ urlRefused u.path = false :=
+  parseUrl_target url u h
+
+example : CV.Http.Client.parseUrl cReq.url = .ok cUrl := by decide
+
+open CV.Http.Client in
+/-- **From the `request` event to the server's parser.**  An application request whose URL `parse_url`
+    accepts as `u`, with a method of METHOD_RE's class, header fields that are RFC 7230 fields and none of
+    the framing headers set by the application: the bytes `Client.request` writes are, for the server side
+    with the code's own lexers, exactly one well-formed request - request line (method, `u.path`, HTTP/1.1),
+    the application's fields + Host + Content-Length, the body - and the server's parser reads them
+    complete and clean.  (`href`: the request line has no backslash and at most 4000 characters; `hlen`:
+    at most 4000 digits of Content-Length - the explicit limits of the lexer model.) -/
+theorem client_request_wellformed (pathOk : Bytes → Option Bytes → Bool) (q : Request) (u : Url)
+    (hu : parseUrl q.url = .ok u) (hm : methodOk q.method = true)
+    (href : lineRefused (reqLineOf q.method u.path [49] [49]) = false)
+    (hok : ∀ f ∈ requestFields u q.headers q.body, FieldOk f)
+    (hno : NoFraming q.headers)
+    (hlen : ∀ b, q.body = some b → (decStr b.length).length ≤ 4000) :
+    lexRequestLine (reqLineOf q.method u.path [49] [49]) = .ok ⟨q.method, u.path, 1, 1⟩ ∧
+    lexFieldList (serFields (requestFields u q.headers q.body)) =
+      .ok ((requestFields u q.headers q.body).map normField) ∧
+    isReading (concreteLex pathOk) .request (wireBytes (requestWrites q u))
+      (reqLineOf q.method u.path [49] [49]) (some (serFields (requestFields u q.headers q.body)))
+      (q.body.getD []) = true ∧
+    (exec (concreteLex pathOk) (init .request) (wireBytes (requestWrites q u))).core.bad = false ∧
+    (exec (concreteLex pathOk) (init .request) (wireBytes (requestWrites q u))).core.complete = true ∧
+    (exec (concreteLex pathOk) (init .request) (wireBytes (requestWrites q u))).core.body = q.body.getD [] := by
+  obtain ⟨a, b, c, d⟩ := client_target q.url u hu
+  exact client_request_parses_back_noframing pathOk q u hm a b c d href hok hno hlen
+
+/-- non-vacuity: `cReq`, `cUrl` (hypotheses `hok`, `hno`, `hlen`: the examples above) -/
+example : CV.Http.Client.parseUrl cReq.url = .ok cUrl ∧ methodOk cReq.method = true ∧
+    lineRefused (reqLineOf cReq.method cUrl.path [49] [49]) = false := by decide
 
 end CV.C13
